@@ -8,7 +8,7 @@ import common, gen
 import model_regex as mr
 from common import pmap, rng, build
 
-MARK = ''
+MARK = '\ue000'          # private-use code point that no generated text contains
 
 
 def kind1(c):
